@@ -10,6 +10,7 @@ import (
 	"path/filepath"
 	"strconv"
 	"strings"
+	"sync/atomic"
 	"time"
 
 	"github.com/glowlabs-org/gca-backend/client"
@@ -95,7 +96,13 @@ func runEmitScenario(seed uint64, size int, t *Trace) error {
 		tmp := filepath.Join(dir, "energy.tmp")
 		os.WriteFile(tmp, []byte(content), 0644)
 		os.Rename(tmp, filepath.Join(dir, client.EnergyFile))
-		time.Sleep(220 * time.Millisecond) // at least three loop iterations (60-64 ms each)
+		// wait until the reporting loop has started two more iterations (so one full iteration has
+		// seen the new content), then let the datagrams arrive
+		it0 := atomic.LoadInt64(&loopIters)
+		for w := 0; w < 3000 && atomic.LoadInt64(&loopIters) < it0+2; w++ {
+			time.Sleep(time.Millisecond)
+		}
+		sink.settle(10*time.Millisecond, 300*time.Millisecond)
 		recs, _ := c.VerifReadEnergyFile()
 		var sent []string
 		for _, p := range sink.take() {
@@ -113,6 +120,12 @@ func runEmitScenario(seed uint64, size int, t *Trace) error {
 	c.Close()
 	t.DumpStats()
 	return nil
+}
+
+var loopIters int64
+
+func init() {
+	client.VerifSetPoint("send-loop-iter", func() { atomic.AddInt64(&loopIters, 1) })
 }
 
 func recList(recs []client.EnergyRecord) string {
